@@ -2,6 +2,7 @@ import TsRsVerif.Model.Deps
 import TsRsVerif.Lemmas.ImportLemmas
 import TsRsVerif.Lemmas.DepsLemmas
 import TsRsVerif.Lemmas.DepsGeneric
+import TsRsVerif.Lemmas.SameFile
 /-!
 # C03 — exported files import exactly the names they use, from where they live
 
@@ -174,5 +175,42 @@ theorem C03_self_filtered (it : Item) (deps : List Visited) :
     ∀ d ∈ deps.filter (fun d => !RTy.beq d.ty (withoutGenerics it)), RTy.beq d.ty (withoutGenerics it) = false := by
   intro d hd
   simpa using (List.mem_filter.mp hd).2
+
+
+/-! ## the `is_same_file` test (export.rs) against C08's specification of a specifier -/
+
+/-- **An import is dropped as "same file" only when it is the importing file** (no ES-module imports): for
+every importing file `…/ff.ts` whose stem does not itself end in `.ts`, every directory `fd` and every
+target `A` — if a specifier meets C08's clauses for `A` (relative, resolves to `A` from `fd`, no `.js`: what
+`C08_resolves` proves of `import_path`'s result) and passes `is_same_file`, then `A` is `fd/ff.ts`, the
+importing file. So `generate_imports` never loses the import of a type that lives elsewhere. -/
+theorem C03_same_file_only_self (fd A : List Str) (frm spec ff : Str)
+    (hfn : Path.fileName frm = some (ff ++ Path.dotTs))
+    (hffs : '/' ∉ ff) (hts : Text.endsWith Path.dotTs ff = false)
+    (hgood : Path.specGood false fd A spec = true)
+    (hsame : Path.isSameFile frm spec = true) :
+    A = fd ++ [ff ++ Path.dotTs] :=
+  Path.same_file_only_self fd A frm spec ff hfn hffs hts hgood hsame
+
+/-- **… and the importing file itself is always recognised**: `./<stem>` passes the test, so a file never
+imports from itself (stem ending neither in `.ts` nor in `.js`). -/
+theorem C03_same_file_detects_self (frm ff : Str) (hfn : Path.fileName frm = some (ff ++ Path.dotTs))
+    (hts : Text.endsWith Path.dotTs ff = false) (hjs : Text.endsWith Path.dotJs ff = false) :
+    Path.isSameFile frm (['.', '/'] ++ ff) = true :=
+  Path.same_file_detects_self frm ff hfn hts hjs
+
+/-- non-vacuity: both theorems' hypotheses hold for `/w/bindings/a/A.ts` -/
+example : Path.fileName "/w/bindings/a/A.ts".toList = some ("A".toList ++ Path.dotTs) ∧
+    Path.specGood false ["w".toList, "a".toList] ["w".toList, "a".toList, "A.ts".toList] "./A".toList = true ∧
+    Path.isSameFile "/w/bindings/a/A.ts".toList "./A".toList = true ∧
+    Path.isSameFile "/w/bindings/a/A.ts".toList "../b/A".toList = false := by decide
+
+/-- the stem condition is necessary: the file `a.ts.ts` imports from its sibling `a.ts` through the
+specifier `./a`, which meets every clause of C08 — and `is_same_file` drops it (`trim_end_matches`
+strips `.ts` twice). Same root as `C08_cex_stem_ts`; such file names need `export_to = "a.ts.ts"`. -/
+theorem C03_cex_same_file_stem :
+    Path.importPath false "/w".toList "/w/a.ts.ts".toList "/w/a.ts".toList = some (.ok "./a".toList) ∧
+    Path.specGood false ["w".toList] ["w".toList, "a.ts".toList] "./a".toList = true ∧
+    Path.isSameFile "/w/a.ts.ts".toList "./a".toList = true := by decide
 
 end TsRs
